@@ -70,6 +70,7 @@ func runC07(c *Ctx) {
 	c.Rule("C07.unauth", "ACL configured and NewRPCACL fails => every path of Subscribe returns status Unauthenticated and performs no Recv, Send, go, registration or Insert; NewRPCACL succeeds => the ACL stored in the stream client is its result; no ACL configured => the stub")
 	c.Rule("C07.single", "target != \"*\" and Check(target) false => every path returns PermissionDenied with no go / registration / Send / Insert; every path that starts a goroutine for a single target contains an earlier Check of that target on the RPC's ACL")
 	c.Rule("C07.send-guard", "every invoke of the gRPC stream's Send/SendMsg in non-test code of package subscribe is (a) data-free: the argument is a package variable initialised once to a SyncResponse, or (b) guarded: on every path to the Send, the response's update prefix is nil or RPCACL.Check(prefix.GetTarget()) of that same response returned true on the stream client's ACL")
+	aclCheckSites(c, "C07.check-sites")
 	c.Rule("C07.resp-faithful", "MakeSubscribeResponse wraps the cached *Notification itself or a proto.Clone of it (a rebuilt message could drop the prefix that the send guard inspects)")
 	c.Rule("C07.acl-flow", "streamClient.acl is stored only inside Server.Subscribe")
 	c.Rule("C07.prefix-always", "Cache.GnmiUpdate returns an error for a nil prefix before dispatch; deleteNoti, metaNoti and toDeleteNotification build a non-nil Prefix with Target set")
@@ -671,4 +672,139 @@ func permitAllACL(P *Prog, T types.Type) bool {
 		}
 	})
 	return ok && n > 0
+}
+
+
+// aclCheckSites: what the ACL may be asked.  The denial half of the property is complete with the
+// admission check and the send guard; any *other* consultation of the ACL can only withhold data from
+// authorised callers.  Every invoke of RPCACL.Check in package subscribe is therefore one of
+//   - admission: the argument is the subscription's own target (streamClient.target) and the call is
+//     made only when that target is not the all-targets wildcard ("*" is not a target name: Check("*")
+//     is false for every real table) - a dominating `target != "*"` edge in the function, or at every
+//     call site of the unexported helper that holds the call;
+//   - per message: the argument is the target of the prefix of a message being delivered.
+// A verdict asked about anything else (a name enumerated from the cache when the RPC starts, ...)
+// decides delivery from a state that changes afterwards.
+func aclCheckSites(c *Ctx, rule string) {
+	P := c.P
+	c.Rule(rule, "every invoke of RPCACL.Check in non-test code of package subscribe asks about (a) the subscription's own target, and then only where that target is known not to be the all-targets wildcard (a dominating target != \"*\" edge, in the function or at every call site of the unexported helper holding the call), or (b) the target of the prefix of a message being delivered; the ACL is asked about nothing else (a verdict on names enumerated at some moment withholds what appears later; Check(\"*\") denies an all-targets subscription outright)")
+	fTarget := P.Field("subscribe", "streamClient", "target")
+	if fTarget == nil {
+		c.Unresolved(rule, "subscribe.streamClient.target")
+		return
+	}
+	isStar := func(v ssa.Value) bool { s, ok := constString(v); return ok && s == "*" }
+	targetLoad := func(v ssa.Value) bool {
+		v = unwrap(v)
+		if loadOfField(v, fTarget) {
+			return true
+		}
+		// a local copy of the field (t := c.target)
+		if ph, ok := v.(*ssa.Phi); ok {
+			for _, e := range ph.Edges {
+				if !loadOfField(unwrap(e), fTarget) {
+					return false
+				}
+			}
+			return len(ph.Edges) > 0
+		}
+		return false
+	}
+	// notStarAt: block b is dominated by an edge on which streamClient.target != "*"
+	notStarAt := func(b *ssa.BasicBlock) bool {
+		for x := b; x != nil; x = x.Idom() {
+			d := x.Idom()
+			if d == nil {
+				break
+			}
+			iff, ok := d.Instrs[len(d.Instrs)-1].(*ssa.If)
+			if !ok {
+				continue
+			}
+			cmp, ok := iff.Cond.(*ssa.BinOp)
+			if !ok || (cmp.Op != token.NEQ && cmp.Op != token.EQL) {
+				continue
+			}
+			if !((targetLoad(cmp.X) && isStar(cmp.Y)) || (targetLoad(cmp.Y) && isStar(cmp.X))) {
+				continue
+			}
+			want := 0 // successor index on which target != "*"
+			if cmp.Op == token.EQL {
+				want = 1
+			}
+			if d.Succs[want] == x && len(x.Preds) == 1 {
+				return true
+			}
+		}
+		return false
+	}
+	var guarded func(f *ssa.Function, b *ssa.BasicBlock, depth int) (bool, string)
+	guarded = func(f *ssa.Function, b *ssa.BasicBlock, depth int) (bool, string) {
+		if notStarAt(b) {
+			return true, "target != \"*\" on a dominating edge in " + fnName(f)
+		}
+		if depth >= 2 || f.Parent() != nil || (f.Object() != nil && f.Object().Exported()) {
+			return false, "no dominating target != \"*\" edge in " + fnName(f)
+		}
+		// an unexported helper: every call site (incl. go / defer) must be guarded
+		sites := 0
+		for _, g := range P.PkgFuncs("subscribe") {
+			if P.InTestFile(g) {
+				continue
+			}
+			for _, h := range withAnon(g) {
+				for _, ci := range callsIn(h) {
+					if staticCallee(ci.Common()) != f {
+						continue
+					}
+					sites++
+					if ok, why := guarded(h, ci.Block(), depth+1); !ok {
+						return false, "call site in " + fnName(h) + ": " + why
+					}
+				}
+			}
+		}
+		if sites == 0 {
+			return false, "helper " + fnName(f) + " has no static call site"
+		}
+		return true, fmt.Sprintf("every one of the %d call sites of %s is under target != \"*\"", sites, fnName(f))
+	}
+	n := 0
+	for _, top := range P.PkgFuncs("subscribe") {
+		if P.InTestFile(top) {
+			continue
+		}
+		for _, f := range withAnon(top) {
+			for _, ci := range callsIn(f) {
+				cc := ci.Common()
+				if !cc.IsInvoke() || cc.Method.Name() != "Check" || len(cc.Args) != 1 {
+					continue
+				}
+				if nm, ok := cc.Value.Type().(*types.Named); !ok || nm.Obj().Name() != "RPCACL" {
+					continue
+				}
+				n++
+				c.Analysed(fnName(top))
+				arg := unwrap(cc.Args[0])
+				key := "Check(" + Expr(cc.Args[0]) + ")"
+				switch {
+				case targetLoad(arg):
+					ok, why := guarded(f, ci.Block(), 0)
+					c.Check(ok, rule, fnName(f), key+" admission check only for a named target", P.Pos(ci.Pos()), why)
+				default:
+					msg := false
+					if call, ok := arg.(*ssa.Call); ok && calleeName(&call.Call) == "(*proto/gnmi.Path).GetTarget" {
+						msg = true
+					}
+					if u, ok := arg.(*ssa.UnOp); ok && u.Op == token.MUL {
+						if fa, ok := u.X.(*ssa.FieldAddr); ok && vname(fieldOf(fa)) == "Target" && isNamed(deref(fa.X.Type()), "proto/gnmi", "Path") {
+							msg = true
+						}
+					}
+					c.Check(msg, rule, fnName(f), key+" asks about the target of a message being delivered", P.Pos(ci.Pos()), "the argument is neither the subscription's own target nor the target of a message's prefix")
+				}
+			}
+		}
+	}
+	c.Floor(rule, n, 2)
 }
